@@ -3,8 +3,8 @@
 1. TLC checks ChainCore.tla exhaustively: every tree of <= 3 (quick) / 4 (thorough) blocks with per-block work and
    verdict (ok / non-contextually bad / contextually bad), every delivery order (incl. orphans, duplicates, genesis),
    every interleaving of the ChainService / preload / verify threads: TipHeaviestValid, NeverLeaveTipForNotHeavier,
-   OrphansConnected, OnlyValidAttached, Accounted, NoGhostExt. Self-test: the model of verify_block before fix
-   9663883 (PreFix = TRUE) must violate NoGhostExt.
+   OrphansConnected, OnlyValidAttached, Accounted, NoGhostExt. Self-test: the model of the code before the fixes
+   9663883 / cc270cd (PreFix = TRUE) must violate NoGhostExt and NoPreloadPanic.
 2. R: every quiescent state TLC reaches is exported with its (tree, order); sampled scenarios are concretised as real
    blocks, delivered to a real node in the model's order as one burst, and the real quiescent state must be one of
    the states the model allows for exactly that scenario (equal-work ties and release order stay nondeterministic).
@@ -351,7 +351,6 @@ def run(tier):
         "contextual flaws: DAO field off by one, commitment outside the proposal window; non-contextual flaw: duplicate proposal id",
         "the node under test and the mirror node are truncated back to genesis between exported scenarios (every scenario uses fresh blocks)",
         "the orphan retention horizon (clean_expired_orphans) is not exercised",
-        "the preload thread's reads of a block deleted in the meantime are served by the store caches (see design.d/C01.md); the model lets such entries through to Verify",
     ]
     rnd = random.Random(V.seed())
     pool = cf.ThreadPoolExecutor(max_workers=3)
@@ -359,9 +358,13 @@ def run(tier):
     f3 = pool.submit(model_check, c, "MC_ChainCore_3emit.cfg")
     f2 = pool.submit(model_check, c, "MC_ChainCore_2emit.cfg", 2)
     fself = pool.submit(model_check, c, "MC_ChainCore_prefix.cfg", 2, 600, "NoGhostExt")
+    fself2 = pool.submit(model_check, c, "MC_ChainCore_prefix2.cfg", 2, 600, "NoPreloadPanic")
     extra = []
     if not quick:
         extra = [pool.submit(model_check, c, "MC_ChainCore_3dupemit.cfg", 6, 1400)]
+    # beyond the exhaustive bound: simulation of 5-block trees with two duplicates (all invariants on every state)
+    fsim = pool.submit(V.tlc, PID, "MC_ChainCore", "MC_ChainCore_sim5.cfg", workers=4, simulate="num=%d" % (2000 if quick else 40000),
+                       depth=150, timeout=900, tag="sim5")
     # 3./4. meanwhile: random trees and the regression scenario
     V.build_harness("c01")
     seeds = [V.seed() * 100 + i for i in range(4 if quick else 8)]
@@ -373,7 +376,14 @@ def run(tier):
     tr = run_traces(c, rnd, 60 if quick else 400, 3, 8)
     c.set("trace_validation", tr)
     fself.result()
-    c.set("selftest_prefix_rejected_by", "NoGhostExt")
+    fself2.result()
+    c.set("selftest_prefix_rejected_by", ["NoGhostExt", "NoPreloadPanic"])
+    rsim = fsim.result()
+    if rsim["violated"]:
+        c.violation("model/" + rsim["violated"], "ChainCore.tla violates %s in the 5-block simulation" % rsim["violated"],
+                    {"kind": "model", "cfg": "MC_ChainCore_sim5.cfg", "tlc_tail": rsim["out"][-4000:]})
+    m = V.SIM_RE.search(rsim["out"])
+    c.set("simulated_states_5_blocks", int(m.group(1)) if m else 0)
     # 2. R
     groups = {}
     for fu in [f3, f2] + extra:
